@@ -190,6 +190,93 @@ def requested_positions(ctx, rule="R11.9"):
     ctx.check(reads == ["self.pos"], rule, "field/base.py::Field.pre_pos", "the positions handed to the generator are read back from self.pos (set by set_pos just before): %s" % reads, "prepos-reads")
 
 
+def mesh_block_offsets(ctx, rule="R11.10"):
+    """generate_on_mesh (meshio, centroids): the field generated on the stacked centroids is cut back into one piece per cell block with
+    (offset, length) pairs.  Symbolic run of the block loop for three blocks with r0, r1, r2 cells: offset_k must be r0 + ... + r(k-1)
+    and length_k must be r_k - otherwise cells receive the values of other locations."""
+    fn = ctx.prog.func("field/tools.py", "generate_on_mesh")
+    site = "field/tools.py::generate_on_mesh"
+    loops = [n for n in ast.walk(fn) if isinstance(n, ast.For) and ast.unparse(n.iter) == "mesh.cells"]
+    if len(loops) != 1:
+        raise AnalysisError("anchor vanished: loop over mesh.cells in generate_on_mesh")
+    lp = loops[0]
+    # abstract values: ("arr", {sym: coef}) rows of an array ; ("list", n_items, {sym: coef} total rows of the items)
+    pre = {}
+    for st in ast.walk(fn):
+        if isinstance(st, ast.Assign) and len(st.targets) == 1 and isinstance(st.targets[0], ast.Name) and st._ord < lp._ord:
+            v = st.value
+            t = ast.unparse(v)
+            if isinstance(v, ast.List) and not v.elts:
+                pre[st.targets[0].id] = ("list", 0, {})
+            elif t.startswith("np.empty((0,"):
+                pre[st.targets[0].id] = ("arr", {})
+    env = dict(pre)
+    offsets, lengths = [], []
+
+    def add(a, b):
+        out = dict(a)
+        for k, v in b.items():
+            out[k] = out.get(k, 0) + v
+        return out
+
+    def rows(e):
+        """number of rows / items denoted by e: {sym: coef} (+ '1' for constants) or None"""
+        t = ast.unparse(e)
+        if isinstance(e, ast.Subscript) and isinstance(e.value, ast.Attribute) and e.value.attr == "shape" and isinstance(e.value.value, ast.Name) and ast.unparse(e.slice) == "0":
+            v = env.get(e.value.value.id)
+            return v[1] if v is not None and v[0] == "arr" else None
+        if isinstance(e, ast.Call) and getattr(e.func, "id", "") == "len" and len(e.args) == 1 and isinstance(e.args[0], ast.Name):
+            v = env.get(e.args[0].id)
+            if v is None:
+                return None
+            return v[1] if v[0] == "arr" else {"1": v[1]}
+        del t
+        return None
+
+    undec = None
+    for k in range(3):
+        sym = "r%d" % k
+        for st in lp.body:
+            if isinstance(st, ast.Assign) and len(st.targets) == 1 and isinstance(st.targets[0], ast.Name):
+                nm, v = st.targets[0].id, st.value
+                if isinstance(v, ast.Call) and ast.unparse(v.func) == "np.vstack" and len(v.args) == 1 and isinstance(v.args[0], (ast.Tuple, ast.List)):
+                    tot = {}
+                    for a in v.args[0].elts:
+                        av = env.get(a.id) if isinstance(a, ast.Name) else None
+                        if av is None or av[0] != "arr":
+                            undec = "vstack operand %s" % ast.unparse(a)
+                            break
+                        tot = add(tot, av[1])
+                    env[nm] = ("arr", tot)
+                else:
+                    env[nm] = ("arr", {sym: 1})  # the centroids of block k: r_k rows
+            elif isinstance(st, ast.Expr) and isinstance(st.value, ast.Call) and isinstance(st.value.func, ast.Attribute) and st.value.func.attr == "append" and isinstance(st.value.func.value, ast.Name):
+                tgt, arg = st.value.func.value.id, st.value.args[0]
+                if tgt == "offset":
+                    offsets.append(rows(arg))
+                elif tgt == "length":
+                    lengths.append(rows(arg))
+                else:
+                    cur = env.get(tgt)
+                    av = env.get(arg.id) if isinstance(arg, ast.Name) else None
+                    if cur is not None and cur[0] == "list" and av is not None and av[0] == "arr":
+                        env[tgt] = ("list", cur[1] + 1, add(cur[2], av[1]))
+                    else:
+                        undec = "append to %s" % tgt
+            else:
+                undec = "statement %s" % norm_stmt(st)[:60]
+    if undec or len(offsets) != 3 or len(lengths) != 3 or any(o is None for o in offsets) or any(x is None for x in lengths):
+        ctx.undecided(rule, site, "block loop not interpretable: %s (offsets %s, lengths %s)" % (undec, offsets, lengths))
+        return
+    clean = lambda d: {k: v for k, v in d.items() if v}
+    want_off = [{}, {"r0": 1}, {"r0": 1, "r1": 1}]
+    want_len = [{"r0": 1}, {"r1": 1}, {"r2": 1}]
+    ctx.check([clean(o) for o in offsets] == want_off, rule, site, "block k starts at the number of centroids of all earlier blocks: offsets %s for block sizes r0, r1, r2" % [clean(o) for o in offsets], "block-offsets")
+    ctx.check([clean(x) for x in lengths] == want_len, rule, site, "block k has as many values as it has cells: lengths %s" % [clean(x) for x in lengths], "block-lengths")
+    cut = [n for n in ast.walk(fn) if isinstance(n, ast.Subscript) and isinstance(n.slice, ast.Slice) and ast.unparse(n.slice) == "off:off + leng"]
+    ctx.check(len(cut) == 1, rule, site, "each block receives field[off : off + leng]", "block-cut")
+
+
 def locality(ctx, rule="R11.5"):
     prog = ctx.prog
     from .C15 import LOCAL_INPUT
@@ -222,9 +309,9 @@ def locality(ctx, rule="R11.5"):
         txt_else = " ".join(norm_stmt(s) for s in a_un)
         ok = txt_then == "pos = generate_grid(self.pos)" and txt_else == "pos = self.pos"
     ctx.check(ok, rule, "field/base.py::Field.pre_pos", "structured axes are expanded with generate_grid to the full point list, unstructured positions are used as given", "expand")
-    rets = [s for s in pre.body if isinstance(s, ast.Return)]
-    ok = any("self.model.isometrize(pos)" in ast.unparse(r) for r in rets)
-    ctx.check(ok, rule, "field/base.py::Field.pre_pos", "the generator receives model.isometrize(point list)", "iso")
+    from .C12 import prepos_isometrizes_once
+
+    ctx.check(prepos_isometrizes_once(pre), rule, "field/base.py::Field.pre_pos", "the generator receives model.isometrize(point list)", "iso")
     for cls, rel in (("SRF", "field/srf.py"), ("CondSRF", "field/cond_srf.py")):
         fn = prog.func(rel, cls + ".__call__")
         calls = [n for n in ast.walk(fn) if isinstance(n, ast.Call) and ast.unparse(n.func) == "self.generator"]
@@ -304,6 +391,7 @@ def run(ctx):
     private_copy(ctx)
     change_detection(ctx)
     locality(ctx)
+    mesh_block_offsets(ctx)
     requested_positions(ctx)
     randomness(ctx)
     update_before_generate(ctx)
